@@ -2,17 +2,19 @@
 
 Ties (model evaluated by vm_compute inside coqc, Export.tb_val / Export.df_val):
   * tb_direct : the real TensorBoardFileTraceExporter is fed generated event/device lists (real trace_view event
-                objects, pids in/outside the domain, with/without pid -1, gaps, non-int pids, missing pid) and
-                flushed into a scratch directory; observed = rank_cnt, the in-memory per-rank views (get_tb_data),
+                objects; rank ids 0..R-1 as well as arbitrary subsets / offsets of a job's ranks, with/without pid -1,
+                negative and non-int pids, pids >= 2000, missing pid) and flushed into a scratch directory; observed =
+                rank_cnt, the in-memory per-rank views (traceview_by_rank via get_tb_data, with their rank ids),
                 every file written (name, event uids, device uids) and the combined view (get_data).
-  * tb_e2e    : Acelyzer(argv).run() in process on generated multi-rank FLEX scenarios with --tb and
-                --tb --disable_file; the combined view's (index, pid) list is the model's input, the worker
-                files / views are the observation.
+  * tb_e2e    : Acelyzer(argv).run() in process on generated multi-rank FLEX scenarios (rank files of the ranks
+                0..R-1 or of an arbitrary subset of a job's ranks) with --tb and --tb --disable_file; the combined
+                view's (index, pid) list is the model's input, the worker files / views are the observation.
   * df_direct : the real DataframeExporter on generated event object lists; observed = the rows of get_data().
 Oracle (independent brute-force statement of the property on the implementation's output, in terms of files):
-  one worker file per rank, worker r == the exported events with pid r or 1000+r in order, every event with
-  pid != -1 in exactly one worker, no worker beyond the ranks, combined == everything; DataFrame rows == the
-  ph "X" events of the JSON export of the same inputs (count, order, rank, ts, dur, name); --disable_file.
+  for ANY set of present rank ids (>= 2 of them): one worker file per present rank and none for an absent one,
+  worker r == the exported events with pid r or 1000+r in order, every event with an int pid >= 0 in exactly one
+  worker, combined == everything; DataFrame rows == the ph "X" events of the JSON export of the same inputs
+  (count, order, rank, ts, dur, name); --disable_file.
 """
 import contextlib
 import glob
@@ -31,40 +33,49 @@ from common import coqrun, enc
 
 ID = "C18"
 PROP_FILE = "props/C18.v"
-THEOREMS = ["C18_tb_partition", "C18_tb_worker_content", "C18_tb_workers_perm", "C18_tb_combined_all",
-            "C18_tb_m1_irrelevant", "C18_worker_name_inj", "C18_df_rows", "C18_old_rule_refuted"]
+THEOREMS = ["C18_tb_partition", "C18_tb_partition_dense", "C18_tb_worker_content", "C18_tb_workers_perm",
+            "C18_tb_combined_all", "C18_tb_m1_irrelevant", "C18_worker_name_inj", "C18_df_rows",
+            "C18_old_rule_refuted", "C18_dense_rule_refuted"]
 ALLOWED_AXIOMS = []
 MANIFEST = {
     "text": "Proof. Coq theorems over an executable model (Export.v) of TensorBoardFileTraceExporter "
-            "(_parse_by_rank_id with the >= 1000 fold, the rank-count rule, per-rank views, which files flush writes "
-            "and under which names) and of DataframeExporter/JsonFileTraceExporter.export, for arbitrary event and "
-            "device lists (no bound): on the property's domain (R ranks, 2 <= R <= 1000, pids in {0..R-1} u "
-            "{1000..1000+R-1} u {-1}, each rank present) the rank count is R, R worker files are written, worker r is "
-            "exactly the events with pid r or 1000+r in export order, the workers together are a permutation of the "
-            "events with pid != -1 (each exactly once) and the combined view is the whole export "
-            "(C18_tb_partition); without any hypothesis on the pids, view r is the filter by pid r / 1000+r and an "
-            "event reaches a worker iff its folded rank id is below the rank count (C18_tb_worker_content, "
-            "C18_tb_workers_perm, C18_tb_combined_all); pid -1 events change neither the rank count nor any worker "
+            "(_parse_by_rank_id with the >= 1000 fold, rank_ids = sorted present ids >= 0, rank_cnt = their number, one "
+            "view per rank id, which files flush writes and under which names) and of "
+            "DataframeExporter/JsonFileTraceExporter.export, for arbitrary event and device lists (no bound, no "
+            "hypothesis on the pids, any set of present rank ids): the rank ids are strictly ascending and are exactly "
+            "the non-negative folded ids present (for r < 1000: some event has pid r or 1000+r), so no worker exists "
+            "for an absent rank; worker r (< 1000) is exactly the events with pid r or 1000+r and the device entries "
+            "with id r or 1000+r in export order; the workers together are a permutation of the events with an int pid "
+            ">= 0 (each exactly once, nothing else); worker files are written unless there is exactly one rank; the "
+            "combined view is the whole export (C18_tb_partition, C18_tb_worker_content, C18_tb_workers_perm, "
+            "C18_tb_combined_all); the dense numbering 0..R-1 is the special case worker index = rank "
+            "(C18_tb_partition_dense); pid -1 events change neither the rank ids nor any worker "
             "(C18_tb_m1_irrelevant); worker file names are injective in the rank (C18_worker_name_inj); the DataFrame "
             "has exactly one row per ph-X event of the JSON export of the same event stream, same order, same "
-            "rank/ts/dur/name (C18_df_rows); the pre-fix rank-count rule is refuted (C18_old_rule_refuted). The model "
+            "rank/ts/dur/name (C18_df_rows); the two pre-fix rules are refuted (C18_old_rule_refuted: rank count = "
+            "groups - 1; C18_dense_rule_refuted: workers 0..rank_cnt-1 on the ranks {2,3}). The model "
             "is tied to the code on every run by three correspondence runs (direct drive of both exporters into a "
             "scratch directory incl. an exhaustive small pid grid, and Acelyzer end to end with --tb, "
-            "--tb --disable_file) and an independent file-partition / DataFrame-vs-JSON oracle incl. -f pddf, "
-            "-f json, --disable_file end to end.",
-    "note": "Print Assumptions: closed under the global context for all eight theorems. Trusted: Coq kernel + "
+            "--tb --disable_file, on dense and on sparse rank sets) and an independent file-partition / "
+            "DataFrame-vs-JSON oracle incl. -f pddf, -f json, --disable_file end to end.",
+    "note": "Print Assumptions: closed under the global context for all ten theorems. Trusted: Coq kernel + "
             "vm_compute; the hand-written model is tied by differential testing only. The end-to-end part of the "
             "DataFrame statement ('same inputs give the same event stream under -f json and -f pddf') is not a "
             "theorem: the pipeline is not modelled here, it is checked by the oracle on generated scenarios. pid -1 "
             "events never arise end to end on FLEX inputs (coll_bw counters are not produced), so they are exercised "
-            "only by the direct drive. Outside the domain the code loses events (rank numbering with gaps, non-int "
-            "pids, folded ids >= rank count): modelled faithfully, characterised by C18_tb_workers_perm, not asserted "
-            "by the oracle. Observed quirks, modelled as they are: worker files are written even with --disable_file; "
-            "a single-rank trace gets no worker file; '.json' is replaced everywhere in the output path; bool pids "
-            "are not modelled.",
-    "technique": "Coq proof (induction over the event list / rank count, permutation and NoDup counting) + "
-                 "vm_compute correspondence against the real exporters and Acelyzer + brute-force oracle",
-    "design_ref": "DESIGN.md section 4/C18, section 6 F4",
+            "only by the direct drive. The oracle asserts the file partition on every case whose int pids are below "
+            "2000 (rank ids below 1000, where 'pid r or 1000+r' is unambiguous) and whose events all carry a pid; "
+            "pids >= 2000 (rank ids >= 1000: worker r holds the pids 1000+r only, C18_tb_worker_content) and the "
+            "KeyError on a missing pid are covered by the tie only. Observed quirks, modelled as they are: worker files "
+            "are written even with --disable_file; a single-rank trace (whatever its rank id) gets no worker file; "
+            "negative pids other than -1 and non-int pids reach no worker; device entries of an absent rank are in no "
+            "worker; end to end, tb_refinement emits the process metadata of a rank without host (or device) events "
+            "under its default pid 0, so an export of e.g. the rank files {2,3} can contain pid-0 metadata events and "
+            "then (rightly, by the property, which speaks about exported events) gets a worker 0 holding them - "
+            "counted in the distribution, not a C18 failure; '.json' is replaced everywhere in the output path; bool pids are not modelled.",
+    "technique": "Coq proof (induction over the event list / rank id list, insertion sort, permutation and NoDup "
+                 "counting) + vm_compute correspondence against the real exporters and Acelyzer + brute-force oracle",
+    "design_ref": "DESIGN.md section 4/C18, section 6 F4; known_findings 0f462ed",
 }
 TRUSTED = [
     "modelled, not verified: json.dump/json.loads, file I/O, pandas.DataFrame construction (rows are read back "
@@ -76,8 +87,9 @@ TRUSTED = [
     "flush() is called once per exporter (Engine.run does so)",
 ]
 ASSUMPTIONS = [
-    "domain of C18_tb_partition: 2 <= R <= 1000 ranks, every exported pid is an int in {0..R-1} u {1000..1000+R-1} "
-    "u {-1} and every rank has at least one exported event (what acelyzer produces for R one-rank FLEX files)",
+    "C18_tb_partition has no hypothesis on the pids; its per-worker clause 'pid r or 1000+r' is stated for rank ids "
+    "r < 1000 (for r >= 1000 pid r itself folds to r-1000; C18_tb_worker_content gives the general form). "
+    "C18_tb_partition_dense: 2 <= R <= 1000, pids in {0..R-1} u {1000..1000+R-1} u {-1}, every rank present",
     "C18_df_rows: event classes fix their ph (CompleteEvents 'X', no other class accepts 'X') and both exporters "
     "receive the same event stream (pipeline determinism is C14; tested here end to end)",
 ]
@@ -126,12 +138,12 @@ def observe_tb(exp, outdir, ev_uids, dev_uids, e2e=False):
     metadata (TraceView.dump: dic.update(self.meta_data)), so there the combined device list is read from
     exporter.traceview.device_data instead of the dump (the worker views/files are always read from the dumps)."""
     views = []
-    for r in range(exp.rank_cnt):
+    for r in sorted(exp.traceview_by_rank):
         try:
             j = json.loads(exp.get_tb_data(r))
-            views.append([ev_uids(j["traceEvents"]), dev_uids(j["deviceProperties"])])
+            views.append([r, ev_uids(j["traceEvents"]), dev_uids(j["deviceProperties"])])
         except Exception as e:  # noqa: BLE001
-            views.append(enc.Err(type(e).__name__))
+            views.append([r, enc.Err(type(e).__name__), []])
     files = []
     for n in _listing(outdir):
         try:
@@ -219,8 +231,23 @@ TARGETS_ODD = ["out.txt", "out", "a.json.b.json", ".json", "..json", "x.json.gz"
                ".hidden.json", "...", "a.", "out.pt.trace.jsonx"]
 
 
-def gen_tb_domain(r, big=False):
+def gen_rank_ids(r, big=False):
+    """the ranks that are present: 0..R-1, or a subset / an offset block of the ranks of a larger job"""
     R = r.randint(2, 8) if not big else r.randint(9, 13)
+    x = r.random()
+    if x < 0.45:
+        return list(range(R))
+    if x < 0.75:
+        return sorted(r.sample(range(0, R + r.randint(1, 6)), R))          # gaps in the numbering
+    if x < 0.9:
+        a = r.randint(1, 20)
+        return list(range(a, a + R))                                        # a block that does not start at 0
+    return sorted(r.sample([0, 1, 7, 9, 10, 11, 99, 100, 500, 998, 999], min(R, 6)))
+
+
+def gen_tb_ranks(r, big=False):
+    """a multi-rank export: every pid is k or 1000+k for a present rank k, or -1"""
+    ids = gen_rank_ids(r, big)
     with_m1 = r.random() < 0.5
     n = r.randint(0, 18)
     pids = []
@@ -228,10 +255,10 @@ def gen_tb_domain(r, big=False):
         if with_m1 and r.random() < 0.2:
             pids.append(-1)
         else:
-            k = r.randrange(R)
+            k = r.choice(ids)
             pids.append(k if r.random() < 0.55 else 1000 + k)
     present = {p if p < 1000 else p - 1000 for p in pids if p != -1}
-    for k in range(R):
+    for k in ids:
         if k not in present:
             pids.insert(r.randint(0, len(pids)), k if r.random() < 0.5 else 1000 + k)
     if with_m1 and -1 not in pids:
@@ -241,15 +268,15 @@ def gen_tb_domain(r, big=False):
     if events and r.random() < 0.12:          # an exact duplicate of an exported event (same content, same uid)
         events.insert(r.randint(0, len(events)), list(r.choice(events)))
     devices = []
-    for k in range(R):
+    for i, k in enumerate(ids):
         if r.random() < 0.7:
-            devices.append([100 + k, k if r.random() < 0.85 else 1000 + k])
+            devices.append([100 + i, k if r.random() < 0.85 else 1000 + k])
     if r.random() < 0.1:
-        devices.append([99, -1])
+        devices.append([99, r.choice([-1, 0, 3, 1001])])      # pseudo process / possibly an absent rank
     r.shuffle(devices)
     return {"events": events, "devices": devices, "save": r.random() < 0.7,
             "target": r.choice(TARGETS_PLAIN) if r.random() < 0.7 else r.choice(TARGETS_ODD),
-            "R": R, "domain": True, "with_m1": with_m1}
+            "ranks": ids, "with_m1": with_m1}
 
 
 def gen_tb_malformed(r):
@@ -273,26 +300,23 @@ def gen_tb_malformed(r):
     dalpha = [0, 1, 2, 1000, -1, "None", "str", 5]
     devices = [[100 + i, r.choice(dalpha)] for i in range(r.randint(0, 3))]
     return {"events": events, "devices": devices, "save": r.random() < 0.7,
-            "target": r.choice(TARGETS_PLAIN + TARGETS_ODD), "R": None, "domain": False, "with_m1": -1 in pids,
-            "malformed": kind}
+            "target": r.choice(TARGETS_PLAIN + TARGETS_ODD), "with_m1": -1 in pids, "malformed": kind}
 
 
 def tb_grid(maxlen):
-    """every pid list of length <= maxlen over a small alphabet (exhaustive)"""
+    """every pid list of length <= maxlen over a small alphabet (exhaustive): all rank sets within {0, 1, 2},
+    dense ({0,1}, {0,1,2}) and sparse ({0,2}, {1,2}, {2}, ...)"""
     alpha = [-1, 0, 1, 2, 1000, 1001]
     out = []
     for ln in range(0, maxlen + 1):
         for pids in itertools.product(alpha, repeat=ln):
-            ranks = {p if p < 1000 else p - 1000 for p in pids if p != -1}
-            R = len(ranks)
-            dom = R >= 2 and ranks == set(range(R))
             out.append({"events": [[i + 1, p] for i, p in enumerate(pids)], "devices": [[100, 0], [101, 1]],
-                        "save": True, "target": "out.json", "R": R if dom else None, "domain": dom,
-                        "with_m1": -1 in pids})
+                        "save": True, "target": "out.json", "with_m1": -1 in pids})
     return out
 
 
 def ranks_of(case):
+    """folded non-negative rank ids of the exported int pids (used for statistics / ground truth of the generators)"""
     s = set()
     for _, p in case["events"]:
         if isinstance(p, int) and not isinstance(p, bool):
@@ -303,6 +327,22 @@ def ranks_of(case):
 
 
 # ----------------------------------------------------------------------- TB oracle (files, independent of the model)
+def _is_int(p):
+    return isinstance(p, int) and not isinstance(p, bool)
+
+
+def tb_in_scope(case):
+    """where the oracle asserts the file partition: every exported event carries a pid (flush completes) and every
+    int pid is below 2000, so that 'worker r holds the events whose pid is r or 1000+r' names one rank per pid"""
+    return all(p != "missing" and not (_is_int(p) and p >= 2000) for _, p in case["events"])
+
+
+def present_ranks(case):
+    """the ranks that are present: r such that some exported event has pid r or 1000+r (r = 0..999)"""
+    pids = {p for _, p in case["events"] if _is_int(p)}
+    return {r for r in range(1000) if r in pids or 1000 + r in pids}
+
+
 def oracle_tb(case, obs, stream):
     """case['events'] = [(uid, pid)] as exported; obs = observe_tb(...).  Returns a list of failures (dicts)."""
     fails = []
@@ -328,35 +368,37 @@ def oracle_tb(case, obs, stream):
             fail("tb_combined_file_incomplete", all_uids, [f[:2] for f in comb_files])
     elif comb_files:
         fail("tb_combined_file_written_despite_disable_file", [], [f[0] for f in comb_files])
-    if not case.get("domain"):
+    if not tb_in_scope(case):
         return fails
-    R = case["R"]
+    S = present_ranks(case)
+    sig = {"ranks": len(S), "dense": S == set(range(len(S)))}
     with_m1 = case.get("with_m1", False)
     wfiles = {}
     for f in files:
         m = WORKER_RE.search(f[0])
         if m:
             wfiles.setdefault(int(m.group(1)), []).append(f)
-    missing = [k for k in range(R) if k not in wfiles]
+    # no worker file for a rank that is not present
+    absent = sorted(k for k in wfiles if k not in S)
+    if absent:
+        fail("tb_worker_for_absent_rank", f"worker files for the present ranks {sorted(S)} only", sorted(wfiles), **sig)
+    # multi-rank: one worker file per present rank
+    multi = len(S) >= 2
+    missing = sorted(k for k in S if k not in wfiles) if multi else []
     if missing:
-        fail("tb_worker_missing", f"worker files 0..{R - 1}", sorted(wfiles), ranks=R, missing=missing,
-             with_m1=with_m1)
-    extra = [k for k in wfiles if k >= R]
-    if extra:
-        fail("tb_extra_worker", f"worker files 0..{R - 1}", sorted(wfiles), ranks=R)
+        fail("tb_worker_missing", f"worker files for the present ranks {sorted(S)}", sorted(wfiles), with_m1=with_m1,
+             **sig)
     if any(len(v) > 1 for v in wfiles.values()):
         fail("tb_worker_name_clash", "one file per rank", sorted(by_name))
-    placed = {}
-    for k in range(R):
-        if k not in wfiles:
+    # worker r holds exactly the exported events whose pid is r or 1000+r, in export order
+    for k in sorted(wfiles):
+        if k not in S:
             continue
         got = wfiles[k][0][1]
-        want = [u for u, p in case["events"] if p in (k, 1000 + k)]
+        want = [u for u, p in case["events"] if _is_int(p) and p in (k, 1000 + k)]
         if isinstance(got, enc.Err):
-            fail("tb_worker_unreadable", want, repr(got), worker=k)
+            fail("tb_worker_unreadable", want, repr(got), worker_is_lowest=(k == min(S)))
             continue
-        for u in got:
-            placed.setdefault(u, []).append(k)
         if got != want:
             if sorted(got) == sorted(want):
                 kind = "tb_worker_order"
@@ -366,18 +408,20 @@ def oracle_tb(case, obs, stream):
                 kind = "tb_event_duplicated"
             else:
                 kind = "tb_event_lost"
-            fail(kind, want, got, worker=k)
-    # every event with pid != -1 exactly once over all workers (multiset); pid -1 in none
-    if not missing:
-        want_all = sorted(u for u, p in case["events"] if p != -1)
-        got_all = sorted(u for k in wfiles if k < R and not isinstance(wfiles[k][0][1], enc.Err)
-                         for u in wfiles[k][0][1])
+            fail(kind, {"worker": k, "events": want}, got, **sig)
+    # every event with an int pid >= 0 exactly once over all workers (multiset); every other event in none
+    if multi and not missing:
+        want_all = sorted(u for u, p in case["events"] if _is_int(p) and p >= 0)
+        got_all = sorted(u for k in wfiles if not isinstance(wfiles[k][0][1], enc.Err) for u in wfiles[k][0][1])
         if want_all != got_all and not any(f["signature"]["kind"].startswith("tb_event") for f in fails):
-            fail("tb_partition_broken", want_all, got_all)
-    # the in-memory views (get_tb_data) agree with the files
-    for k in range(min(R, len(views))):
-        if k in wfiles and not isinstance(views[k], enc.Err) and views[k][0] != wfiles[k][0][1]:
-            fail("tb_memory_view_differs_from_file", wfiles[k][0][1], views[k][0], worker=k)
+            fail("tb_partition_broken", want_all, got_all, **sig)
+    # the in-memory views (get_tb_data) exist for present ranks only and agree with the files
+    vmem = {v[0]: v for v in views}
+    if any(k not in S for k in vmem):
+        fail("tb_memory_view_for_absent_rank", sorted(S), sorted(vmem), **sig)
+    for k in sorted(wfiles):
+        if k in S and k in vmem and not isinstance(vmem[k][1], enc.Err) and vmem[k][1] != wfiles[k][0][1]:
+            fail("tb_memory_view_differs_from_file", wfiles[k][0][1], vmem[k][1], **sig)
     return fails
 
 
@@ -402,11 +446,9 @@ def tb_direct_failure(case, workdir, shrink=True):
     if not fs:
         return None
     kind = fs[0]["signature"]["kind"]
-    if shrink and case.get("domain"):
+    if shrink and tb_in_scope(case):
         def bad(evs):
             c = dict(case, events=evs)
-            if ranks_of(c) != set(range(case["R"])):
-                return False
             return any(f["signature"]["kind"] == kind for f in oracle_tb(c, drive_tb(c, workdir), "direct"))
         case = dict(case, events=shrink_list(case["events"], bad))
         case = dict(case, devices=shrink_list(case["devices"], lambda ds: any(
@@ -609,13 +651,19 @@ def e2e_paths(ctx):
 
 
 def gen_scenario(r, malformed=False):
-    """R one-rank FLEX files; slices sequential per (rank, tid) so that no stage objects"""
+    """R one-rank FLEX files - the ranks 0..R-1 of a job or an arbitrary subset / offset block of a job's ranks;
+    slices sequential per (rank, tid) so that no stage objects.  malformed = a single rank file (no distributed view)"""
     R = r.randint(2, 8)
     if malformed:
-        R = r.choice([1, 2, 3, 4])
-    pids = list(range(R))
-    if malformed and R >= 2 and r.random() < 0.7:
-        pids = sorted(r.sample(range(0, 9), R))           # gaps in the rank numbering
+        R = 1
+    x = r.random()
+    if x < 0.45 and not malformed:
+        pids = list(range(R))
+    elif x < 0.8:
+        pids = sorted(r.sample(range(0, R + r.randint(1, 6)), R))      # gaps in the rank numbering
+    else:
+        a = r.randint(1, 12)
+        pids = list(range(a, a + R))                                    # does not start at rank 0
     files = []
     uid = 0
     for pid in pids:
@@ -645,8 +693,7 @@ def gen_scenario(r, malformed=False):
             uid += 1
             evs.append({"name": "hostx", "ph": "X", "pid": pid, "tid": 3, "ts": t, "dur": 1.0, "args": {"uid": uid}})
         files.append(evs)
-    return {"pids": pids, "files": files, "domain": pids == list(range(R)) and R >= 2, "R": R,
-            "target": r.choice(["out.json", "out.json", "t.pt.trace.json"])}
+    return {"pids": pids, "files": files, "R": R, "target": r.choice(["out.json", "out.json", "t.pt.trace.json"])}
 
 
 def _run_acelyzer(argv):
@@ -732,14 +779,17 @@ def drive_e2e(ctx, sc, indir, paths, outroot):
         obs = observe_tb(exp, d, _content_uids(cev), _content_uids(cdev), e2e=True)
         case = {"events": [[i, _keyspec(e.get("pid"))] for i, e in enumerate(cev)],
                 "devices": [[i, _keyspec(x.get("id"))] for i, x in enumerate(cdev)],
-                "save": tag == "tb", "target": target, "R": sc["R"] if sc["domain"] else None,
-                "domain": sc["domain"], "with_m1": any(e.get("pid") == -1 for e in cev)}
-        if sc["domain"]:
-            # ground truth: the exported pids must be exactly the generated ranks (and their host pids)
-            if ranks_of(case) != set(range(sc["R"])):
-                case["domain"], case["R"] = False, None
-                fail("e2e_exported_ranks_differ_from_input_ranks", sorted(range(sc["R"])), sorted(ranks_of(case)),
-                     config=tag)
+                "save": tag == "tb", "target": target, "ranks": sorted(sc["pids"]),
+                "with_m1": any(e.get("pid") == -1 for e in cev)}
+        # ground truth: every rank of the input files is present in the export (pid r or its host pid 1000+r).
+        # The export may hold one more pid: tb_refinement's DeviceRankInfo emits the process metadata of a rank
+        # without host (or without device) events under the default pid 0 ("cpu_default"/"acc_default"), so rank 0
+        # can be present in the EXPORT without a rank-0 input file; the exporter then rightly makes a worker 0 for
+        # those exported events (the oracle below works on the exported pids).  Counted in the distribution.
+        extra = ranks_of(case) - set(sc["pids"])
+        case["ranks_only_in_export"] = sorted(extra)
+        if not set(sc["pids"]) <= ranks_of(case) or not extra <= {0}:
+            fail("e2e_exported_ranks_differ_from_input_ranks", sorted(sc["pids"]), sorted(ranks_of(case)), config=tag)
         tb_cases.append((case, obs))
         for f in oracle_tb(case, obs, "e2e"):
             f["signature"]["config"] = tag
@@ -812,7 +862,7 @@ def e2e_failure(ctx, sc, env, shrink=True):
                     j += 1
         # fewer ranks (drop the last one while the failure stays)
         while len(sc["files"]) > 2 and time.time() - t0 < 30:
-            cand = dict(sc, files=sc["files"][:-1], pids=sc["pids"][:-1], R=sc["R"] - 1)
+            cand = dict(sc, files=sc["files"][:-1], pids=sc["pids"][:-1], R=len(sc["files"]) - 1)
             if bad(cand):
                 sc = cand
             else:
@@ -852,10 +902,12 @@ def run(ctx):
 
     def n_fail(kind):
         return sum(1 for f in oracle_failures if f["input"]["kind"] == kind)
-    dist = {"tb_direct": {"domain": 0, "malformed": {}, "grid": 0, "corpus": 0, "ranks": {}, "with_m1": 0,
+    dist = {"tb_direct": {"asserted_multi_rank": 0, "dense_0_to_R-1": 0, "sparse_or_offset": 0, "single_or_no_rank": 0,
+                          "tie_only": 0, "malformed": {}, "grid": 0, "corpus": 0, "ranks": {}, "with_m1": 0,
                           "save_false": 0, "odd_target": 0, "duplicates": 0},
             "df_direct": {"cases": 0, "malformed": 0, "slices": 0, "non_slices": 0},
-            "e2e": {"scenarios": 0, "ranks": {}, "malformed": 0, "runs": 0, "exported_slices": 0}}
+            "e2e": {"scenarios": 0, "ranks": {}, "dense_0_to_R-1": 0, "sparse_or_offset": 0, "single_rank": 0,
+                    "runs": 0, "exported_slices": 0, "tb_runs_with_default_pid0_metadata_only_rank0": 0}}
     try:
         # ---------------------------------------------------------------- TB direct
         corpus = load_corpus()
@@ -866,7 +918,7 @@ def run(ctx):
         tb_cases += grid
         for _ in range(ctx.pick(1500, 20000)):
             x = r.random()
-            tb_cases.append(gen_tb_domain(r, big=x < 0.06) if x < 0.75 else gen_tb_malformed(r))
+            tb_cases.append(gen_tb_ranks(r, big=x < 0.06) if x < 0.75 else gen_tb_malformed(r))
         tb_terms, tb_obs = [], []
         seen_nt = set()
         t_stream, n_bad = time.time(), 0
@@ -891,10 +943,15 @@ def run(ctx):
             if len(rk) >= 2:
                 seen_nt.add(("tb", json.dumps([c["events"], c["devices"], c["save"], c["target"]])))
             d = dist["tb_direct"]
-            if c.get("domain"):
-                d["domain"] += 1
-                d["ranks"][c["R"]] = d["ranks"].get(c["R"], 0) + 1
-            elif "malformed" in c:
+            if not tb_in_scope(c):
+                d["tie_only"] += 1
+            elif len(rk) >= 2:
+                d["asserted_multi_rank"] += 1
+                d["ranks"][len(rk)] = d["ranks"].get(len(rk), 0) + 1
+                d["dense_0_to_R-1" if rk == set(range(len(rk))) else "sparse_or_offset"] += 1
+            else:
+                d["single_or_no_rank"] += 1
+            if "malformed" in c:
                 d["malformed"][c["malformed"]] = d["malformed"].get(c["malformed"], 0) + 1
             d["with_m1"] += int(bool(c.get("with_m1")))
             d["save_false"] += int(not c["save"])
@@ -904,7 +961,7 @@ def run(ctx):
         # ---------------------------------------------------------------- e2e
         scs = [c["scenario"] for c in corpus if c.get("kind") == "e2e"]
         for _ in range(ctx.pick(150, 1500)):
-            scs.append(gen_scenario(r, malformed=r.random() < 0.15))
+            scs.append(gen_scenario(r, malformed=r.random() < 0.08))
         e2e_cases = []
         t_stream, n_bad = time.time(), 0
         for si, sc in enumerate(scs):
@@ -918,12 +975,14 @@ def run(ctx):
             dist["e2e"]["scenarios"] += 1
             dist["e2e"]["runs"] += 6
             dist["e2e"]["exported_slices"] += nx
-            dist["e2e"]["ranks"][sc["R"]] = dist["e2e"]["ranks"].get(sc["R"], 0) + 1
-            dist["e2e"]["malformed"] += int(not sc["domain"])
+            dist["e2e"]["ranks"][len(sc["pids"])] = dist["e2e"]["ranks"].get(len(sc["pids"]), 0) + 1
+            dist["e2e"]["single_rank" if len(sc["pids"]) < 2 else
+                        ("dense_0_to_R-1" if sc["pids"] == list(range(len(sc["pids"]))) else "sparse_or_offset")] += 1
             for f in fs:
                 if n_fail("e2e") < 15:
                     oracle_failures.append({"input": {"kind": "e2e", "scenario": sc}, **f})
             for c, obs in cases:
+                dist["e2e"]["tb_runs_with_default_pid0_metadata_only_rank0"] += int(bool(c.get("ranks_only_in_export")))
                 e2e_cases.append((c, sc))
                 tb_terms.append((coq_tb_case(c), enc.V(obs)))
                 if len(ranks_of(c)) >= 2:
@@ -1041,15 +1100,14 @@ def search(ctx, res, broken):
     t0 = time.time()
     limit = ctx.pick(60, 600)
     try:
-        for c in tb_grid(5):
-            if c["domain"]:
-                f = tb_direct_failure(c, wd)
-                if f:
-                    return [f]
+        for c in tb_grid(4):
+            f = tb_direct_failure(c, wd)
+            if f:
+                return [f]
         n = 0
         while time.time() - t0 < limit and n < ctx.pick(15000, 150000):
             n += 1
-            f = tb_direct_failure(gen_tb_domain(r, big=r.random() < 0.1), wd)
+            f = tb_direct_failure(gen_tb_ranks(r, big=r.random() < 0.1), wd)
             if f:
                 return [f]
             f = df_direct_failure(gen_df_case(r, malformed=r.random() < 0.2), wd)
